@@ -237,6 +237,25 @@ def hijri_task(task):
         sh.bad("hijri", "hijri:died:%s" % (r.san_kind() or r.sig or r.rc), "dconv -f hijri died", res_replay(r))
     if outs:
         sh.sample(dict(cmd="dconv -f hijri", input=lines[0], output=outs[0]), cap=1)
+    # and back: -i hijri reads command-line arguments (not stdin lines); every day of the table has to come back
+    hx = [H.text(d.ldn) for d in days]
+    for i in range(0, len(hx), 400):
+        argv = [str(bindir / "dconv"), "-i", "hijri", "-f", "ymd", "--"] + hx[i:i + 400]
+        r2 = run(argv, cpu=30, wall=120)
+        sh.procs += 1
+        if sh.check_san(r2, "san", "hijri:back:san"):
+            continue
+        o2 = r2.out.decode("latin-1").split("\n")[:-1]
+        for k in range(i, min(i + 400, len(hx))):
+            got = o2[k - i] if k - i < len(o2) else None
+            y, m, dd = H.of_ldn(days[k].ldn)
+            c = "hijri-back:" + ("bom" if dd == 1 else "eom" if dd >= 29 else "mid") + (":lastyear" if y == 1450 else ":firstyear" if y == 1318 else "")
+            if got == lines[k]:
+                sh.ok("hijri", c)
+            else:
+                sh.bad("hijri", "hijri:back:err=%s:%s" % (c01.err_shape(got, None), "lastyear" if y == 1450 else "firstyear" if y == 1318 else "other"),
+                       "dconv -i hijri %s -f ymd printed %r, table says %s" % (hx[k], got, lines[k]),
+                       dict(argv=["dconv", "-i", "hijri", "-f", "ymd", hx[k]], expected=lines[k], observed=got), cls=c)
     return sh
 
 
@@ -300,7 +319,7 @@ def main(tier, seed):
     ctx.cov["hijri_days"] = len(hd)
     ctx.assumptions = ["calendar oracle as C01", "data/ummulqura.tab is the Hijri definition",
                        "conversion TO bizda is a documented stub and out of the round-trip claim",
-                       "Hijri -> Gregorian direction is not reachable from the CLI (no -i hijri); see C02 notes in DESIGN.md"]
+                       "Hijri -> Gregorian goes through command-line arguments (-i hijri does not read stdin lines)"]
     ctx.min_evals = 500000
     return ctx.finish()
 
